@@ -343,7 +343,7 @@ func scionExchanges(c *lib.Ctx, tag string, n int, mutantShare int) {
 		sc := func(ri *reqInfo) ([]dgram, int64, int64, bool) {
 			usleep(fwd)
 			ri.R = wallNow().UnixNano()
-			S := wallNow().UnixNano() + 1000
+			S := wallNow().UnixNano()
 			gpay, il := p.reply(*ri, theta, S, wantIL)
 			mk := func(m scionMutant, k int) dgram {
 				pay := gpay
